@@ -42,17 +42,17 @@ type Solver struct {
 	Errors    int
 	dead      bool
 
-	asserted [][]*Term // per level: the asserted terms (for one-shot fallback queries)
-	sent     int       // levels actually pushed in the solver process (<= level)
-	helper   *Solver   // non-incremental fallback process (z3 is much stronger without push/pop)
-	fastMs   int
-	OneShot  int
-	OneShotSec float64
-	Restarts int
-	resendBase bool
-	cross    *Solver
+	asserted     [][]*Term // per level: the asserted terms (for one-shot fallback queries)
+	sent         int       // levels actually pushed in the solver process (<= level)
+	helper       *Solver   // non-incremental fallback process (z3 is much stronger without push/pop)
+	fastMs       int
+	OneShot      int
+	OneShotSec   float64
+	Restarts     int
+	resendBase   bool
+	cross        *Solver
 	CrossQueries int
-	isHelper bool
+	isHelper     bool
 }
 
 func NewSolver(kind string, store *TermStore, timeoutMs int) (*Solver, error) {
